@@ -123,6 +123,8 @@ def bt_case_to_sexp(c):
              ["coupons", frame(c.get("coupons"))], ["cost_long", frame(c.get("cost_long"))],
              ["cost_short", frame(c.get("cost_short"))], ["adata", c.get("adata", [])],
              ["capital", c["capital"]], ["tree", _tree_sx(c["tree"])]]
+    if c.get("reports"):
+        items.append(["reports", True])
     return sx(items)
 
 
@@ -184,8 +186,29 @@ def close(a, b):
     return 0 if va == vb else -1
 
 
+def stat_tie(model):
+    """the key of a per-run trace whose stat holds two equal values: SelectN ranks with pandas' default (numpy, SIMD,
+    unstable) sort, so the order of tied entries is not determined by bt and the model cannot decide it"""
+    for st in model["steps"]:
+        for key, toks in st["state"].items():
+            if key.endswith(".stat"):
+                vals = [t for t in toks[1::2] if t != "nan"]
+                if len(set(tok_val(v) for v in vals)) < len(vals):
+                    return key
+    return None
+
+
 def compare_case(impl, model):
     """-> (verdict, detail) verdict in {'equal', 'drift', 'diff'}; detail names the first difference"""
+    v, d = _compare_case(impl, model)
+    if v == "diff":
+        tie = stat_tie(model)
+        if tie is not None:
+            return "equal", {"unordered_stat_tie": tie, "difference_ignored": d}
+    return v, d
+
+
+def _compare_case(impl, model):
     drift = None
     if len(impl["steps"]) != len(model["steps"]):
         # one side stopped earlier: find out where the statuses diverge
